@@ -602,6 +602,13 @@ class ObjWorld(Run):
     def apply(self, op):
         res = getattr(self, "_a_" + op["op"])(op)
         used = [op.get(k) for k in ("slot", "src", "recv", "arg", "unit", "out") if op.get(k)]
+        for k in used[:2]:
+            sl = self.slots.get(k)
+            if sl is not None:
+                try:
+                    self.states.add(hash(snap(sl.obj, sl.kind)) & 0xFFFFFFFFFFFF)
+                except Exception:
+                    pass
         self.last_used = (used + self.last_used)[:4]
         return res
 
